@@ -94,10 +94,11 @@ func kindSetString(s uint64) string {
 }
 
 type ledger struct {
-	extra []edgeFact // facts assumed while one incoming edge of a join is examined
-	w     *World
-	fn    *ssa.Function
-	keys  map[ssa.Value]string
+	noPhiLen bool       // set while the lengths flowing into a slice phi are judged (no recursion into the same question)
+	extra    []edgeFact // facts assumed while one incoming edge of a join is examined
+	w        *World
+	fn       *ssa.Function
+	keys     map[ssa.Value]string
 	// statistics
 	depth int
 }
@@ -127,7 +128,7 @@ func worldOfProg(p *ssa.Program) *World {
 // (kept per World, in World.predSubst)
 
 // importPredicateFacts: the call is known to have returned true.
-func importPredicateFacts(call *ssa.Call, depth int) []edgeFact {
+func importPredicateFacts(call *ssa.Call, depth int, root *ssa.Function) []edgeFact {
 	var w *World
 	if call.Parent() != nil {
 		w = worldOfProg(call.Parent().Prog)
@@ -139,7 +140,21 @@ func importPredicateFacts(call *ssa.Call, depth int) []edgeFact {
 	if g.Signature.Results().Len() != 1 || !isBasicKind(g.Signature.Results().At(0).Type(), types.Bool) {
 		return nil
 	}
-	if len(w.staticCallSites(g)) != 1 || len(g.Params) != len(call.Call.Args) {
+	if len(g.Params) != len(call.Call.Args) || root == nil {
+		return nil
+	}
+	// the parameters of the predicate stand for the arguments of THIS call while the function `root` is
+	// analysed: within one such function the predicate may be called once (elsewhere it has other operands)
+	nHere := 0
+	for _, s := range w.staticCallSites(g) {
+		for f := s.Parent(); f != nil; f = f.Parent() {
+			if f == call.Parent() {
+				nHere++
+				break
+			}
+		}
+	}
+	if nHere != 1 {
 		return nil
 	}
 	var rets []*ssa.Return
@@ -155,11 +170,11 @@ func importPredicateFacts(call *ssa.Call, depth int) []edgeFact {
 		return nil
 	}
 	for i, prm := range g.Params {
-		w.predSubst.Store(prm, call.Call.Args[i])
+		w.predSubst.Store(predParam{prm, root}, call.Call.Args[i])
 	}
-	out := dominatingFacts(rets[0].Block())
+	out := dominatingFactsIn(rets[0].Block(), root)
 	if _, isC := rets[0].Results[0].(*ssa.Const); !isC {
-		out = append(out, expandFact(edgeFact{rets[0].Results[0], true}, depth+1)...)
+		out = append(out, expandFact(edgeFact{rets[0].Results[0], true}, depth+1, root)...)
 	}
 	return out
 }
@@ -441,17 +456,45 @@ func (w *World) elemPostsOf(g *ssa.Function) []elemPost {
 
 // exportedNameTable: v is the value of a package-level []string that only its initialiser writes, every element an exported name.
 func exportedNameTable(v ssa.Value) bool {
-	ld, isLd := v.(*ssa.UnOp)
-	if !isLd || ld.Op != token.MUL {
-		return false
+	var g *ssa.Global
+	switch x := v.(type) {
+	case *ssa.UnOp:
+		// the value of a slice variable
+		if x.Op == token.MUL {
+			g, _ = x.X.(*ssa.Global)
+		}
+	case *ssa.Global:
+		// an array variable indexed in place
+		g = x
+	case *ssa.Alloc:
+		// the copy of an array variable that a range statement walks
+		n := 0
+		for _, ref := range *x.Referrers() {
+			if st, isSt := ref.(*ssa.Store); isSt && st.Addr == ssa.Value(x) {
+				n++
+				if ld, isLd := st.Val.(*ssa.UnOp); isLd && ld.Op == token.MUL {
+					g, _ = ld.X.(*ssa.Global)
+				}
+			}
+		}
+		if n != 1 {
+			g = nil
+		}
 	}
-	g, isG := ld.X.(*ssa.Global)
-	if !isG || g.Pkg == nil {
+	if g == nil || g.Pkg == nil {
 		return false
 	}
 	t := constTablesOf(g.Pkg)[g]
-	if t == nil || !t.isSlice || int64(len(t.vals)) != t.length || t.length == 0 {
+	if t == nil || !t.isArray || len(t.vals) == 0 {
 		return false
+	}
+	if t.isSlice && int64(len(t.vals)) != t.length {
+		return false
+	}
+	if !t.isSlice {
+		if at, isArr := g.Type().(*types.Pointer).Elem().Underlying().(*types.Array); !isArr || int64(len(t.vals)) != at.Len() {
+			return false
+		}
 	}
 	for _, e := range t.vals {
 		c, isC := e.(*ssa.Const)
@@ -662,8 +705,8 @@ func (lg *ledger) key(v ssa.Value) string {
 	if v == nil {
 		return "<nil>"
 	}
-	if _, isParam := v.(*ssa.Parameter); isParam {
-		if a, ok := lg.w.predSubst.Load(v); ok && a.(ssa.Value) != v {
+	if prm, isParam := v.(*ssa.Parameter); isParam && prm.Parent() != lg.fn {
+		if a, ok := lg.w.predSubst.Load(predParam{prm, lg.fn}); ok && a.(ssa.Value) != v {
 			return lg.key(a.(ssa.Value))
 		}
 	}
@@ -810,7 +853,16 @@ type edgeFact struct {
 
 // dominatingFacts: conditions known at the entry of b from exclusive edges of
 // its dominators.
-func dominatingFacts(b *ssa.BasicBlock) []edgeFact {
+func dominatingFacts(b *ssa.BasicBlock) []edgeFact { return dominatingFactsIn(b, b.Parent()) }
+
+// predParam: a parameter of a predicate function, as it is bound while the function root is analysed.
+type predParam struct {
+	prm  *ssa.Parameter
+	root *ssa.Function
+}
+
+// dominatingFactsIn: the facts that dominate b, with the predicates they call expanded for the analysis of root.
+func dominatingFactsIn(b *ssa.BasicBlock, root *ssa.Function) []edgeFact {
 	var out []edgeFact
 	for cur := b; cur != nil; cur = cur.Idom() {
 		if len(cur.Preds) != 1 {
@@ -818,7 +870,7 @@ func dominatingFacts(b *ssa.BasicBlock) []edgeFact {
 		}
 		p := cur.Preds[0]
 		if ifi, ok := p.Instrs[len(p.Instrs)-1].(*ssa.If); ok && p.Succs[0] != p.Succs[1] {
-			out = append(out, expandFact(edgeFact{ifi.Cond, p.Succs[0] == cur}, 0)...)
+			out = append(out, expandFact(edgeFact{ifi.Cond, p.Succs[0] == cur}, 0, root)...)
 		}
 	}
 	return out
@@ -829,7 +881,7 @@ func dominatingFacts(b *ssa.BasicBlock) []edgeFact {
 // false (for ||) or true (for &&) only one incoming edge is feasible: the fact
 // then holds for that edge's value, together with everything known at the end
 // of that predecessor.
-func expandFact(f edgeFact, depth int) []edgeFact {
+func expandFact(f edgeFact, depth int, root *ssa.Function) []edgeFact {
 	out := []edgeFact{f}
 	if depth > 6 {
 		return out
@@ -843,7 +895,7 @@ func expandFact(f edgeFact, depth int) []edgeFact {
 		cond, truth = u.X, !truth
 	}
 	if call, isCall := cond.(*ssa.Call); isCall && truth {
-		out = append(out, importPredicateFacts(call, depth)...)
+		out = append(out, importPredicateFacts(call, depth, root)...)
 		return out
 	}
 	phi, ok := cond.(*ssa.Phi)
@@ -869,9 +921,9 @@ func expandFact(f edgeFact, depth int) []edgeFact {
 	}
 	pb := phi.Block().Preds[feasible]
 	if _, isC := phi.Edges[feasible].(*ssa.Const); !isC {
-		out = append(out, expandFact(edgeFact{phi.Edges[feasible], truth}, depth+1)...)
+		out = append(out, expandFact(edgeFact{phi.Edges[feasible], truth}, depth+1, root)...)
 	}
-	out = append(out, dominatingFacts(pb)...)
+	out = append(out, dominatingFactsIn(pb, root)...)
 	return out
 }
 
@@ -886,7 +938,7 @@ func edgeCond(from, to *ssa.BasicBlock) (edgeFact, bool) {
 func edgeFacts(from, to *ssa.BasicBlock) []edgeFact {
 	var out []edgeFact
 	if f, ok := edgeCond(from, to); ok {
-		out = append(out, expandFact(f, 0)...)
+		out = append(out, expandFact(f, 0, from.Parent())...)
 	}
 	return out
 }
@@ -1215,6 +1267,18 @@ func (lg *ledger) kindFact(cond ssa.Value, truth bool, subject ssa.Value, isType
 	if call, isCall := cond.(*ssa.Call); isCall && !isType {
 		if g := call.Call.StaticCallee(); g != nil && inModule(g) && len(g.Blocks) > 0 && g.Signature.Results().Len() == 1 && isBasicKind(g.Signature.Results().At(0).Type(), types.Bool) && len(g.Params) == len(call.Call.Args) {
 			for i, a := range call.Call.Args {
+				// the kind itself handed to the predicate: sliceable(v.Kind())
+				if namedIs(a.Type(), "reflect", "Kind") {
+					if recv, _, isKind := reflectValueCall(a, "Kind"); isKind && lg.key(recv) == lg.key(subject) {
+						if whenTrue, whenFalse, ok := lg.w.kindPredicate(g, i); ok {
+							if truth {
+								return whenTrue, true
+							}
+							return whenFalse, true
+						}
+					}
+					continue
+				}
 				if lg.key(a) != lg.key(subject) || !namedIs(a.Type(), "reflect", "Value") {
 					continue
 				}
@@ -1238,6 +1302,13 @@ func (lg *ledger) kindFact(cond ssa.Value, truth bool, subject ssa.Value, isType
 	k, isC := constKind(y)
 	if !isC {
 		return 0, false
+	}
+	// the subject IS a kind (the parameter of a predicate over kinds): k == reflect.Slice
+	if !isType && namedIs(subject.Type(), "reflect", "Kind") && lg.key(x) == lg.key(subject) {
+		if truth == (bo.Op == token.EQL) {
+			return 1 << uint(k), true
+		}
+		return ^uint64(0) &^ (1 << uint(k)), true
 	}
 	var recv ssa.Value
 	if isType {
@@ -1305,11 +1376,13 @@ type proofCtx struct {
 	done    map[string]string // proven: key -> justification
 	failed  map[string]bool
 	depth   int
+	below   []edgeFact // what dominates the block the obligation sits in: an incoming edge of a join further up that contradicts it cannot be on the way there
 }
 
 func (lg *ledger) prove(p pred, at *ssa.BasicBlock) (bool, string) {
 	ctx := &proofCtx{visited: map[string]bool{}, done: map[string]string{}, failed: map[string]bool{}, nilPhis: map[*ssa.Phi]bool{}}
-	for _, f := range dominatingFacts(at) {
+	ctx.below = dominatingFacts(at)
+	for _, f := range ctx.below {
 		if bo, ok := f.cond.(*ssa.BinOp); ok && (bo.Op == token.EQL || bo.Op == token.NEQ) {
 			isNil := f.truth == (bo.Op == token.EQL)
 			if phi, ok := bo.X.(*ssa.Phi); ok && isNilConst(bo.Y) && isNil {
@@ -1694,6 +1767,18 @@ func (w *World) globalInitStore(g *ssa.Global) *ssa.Store {
 // error variable) is nil; an incoming edge of the phi's block that feeds it a
 // freshly constructed error cannot have been taken.
 func (lg *ledger) edgeInfeasible(at *ssa.BasicBlock, i int, ctx *proofCtx) bool {
+	// the edge is taken under a condition whose opposite is known where the obligation sits
+	// (if op == "/" && r == 0 { return }; switch op { case "/": l / r }: the edge `op != "/"` into the
+	// switch does not lead to the division)
+	if i < len(at.Preds) {
+		if f, ok := edgeCond(at.Preds[i], at); ok {
+			for _, g := range ctx.below {
+				if g.truth != f.truth && lg.sameCond(f.cond, g.cond) {
+					return true
+				}
+			}
+		}
+	}
 	for phi := range ctx.nilPhis {
 		if phi.Block() != at || i >= len(phi.Edges) {
 			continue
@@ -1703,6 +1788,35 @@ func (lg *ledger) edgeInfeasible(at *ssa.BasicBlock, i int, ctx *proofCtx) bool 
 		}
 	}
 	return false
+}
+
+// sameCond: two conditions that compare the same operands in the same way (different instructions of the same test).
+func (lg *ledger) sameCond(a, b ssa.Value) bool {
+	if a == b {
+		return true
+	}
+	x, ok1 := a.(*ssa.BinOp)
+	y, ok2 := b.(*ssa.BinOp)
+	if !ok1 || !ok2 || x.Op != y.Op {
+		return false
+	}
+	switch x.Op {
+	case token.EQL, token.NEQ, token.LSS, token.LEQ, token.GTR, token.GEQ:
+	default:
+		return false
+	}
+	pure := func(v ssa.Value) bool {
+		switch v.(type) {
+		case *ssa.Parameter, *ssa.Const:
+			return true
+		}
+		return false
+	}
+	// (operands that cannot change between the two tests: parameters and constants)
+	if !pure(x.X) || !pure(x.Y) || !pure(y.X) || !pure(y.Y) {
+		return false
+	}
+	return lg.key(x.X) == lg.key(y.X) && lg.key(x.Y) == lg.key(y.Y)
 }
 
 func definitelyNonNil(v ssa.Value) bool {
@@ -2033,6 +2147,9 @@ func (lg *ledger) mayBeReadOnly(v ssa.Value, depth int) bool {
 						return lg.mayBeReadOnly(recv, depth+1)
 					}
 				}
+			}
+			if ix, isIx := args[0].(*ssa.Index); isIx && exportedNameTable(ix.X) {
+				return lg.mayBeReadOnly(recv, depth+1) // an element of the array's value
 			}
 			return true
 		}
@@ -2483,6 +2600,28 @@ func (lg *ledger) boundFacts(b *ssa.BasicBlock) (out []diffC) {
 					}
 				}
 			case *ssa.Phi:
+				// a slice (or string) that is non-empty on every way into the join is non-empty:
+				// for len(segments) >= 2 { segments = segments[1:] ... }; return segments[0]
+				if _, isSl := x.Type().Underlying().(*types.Slice); isSl && !lg.noPhiLen && lg.depth < 2 && len(x.Edges) <= 4 {
+					all := true
+					for i, e := range x.Edges {
+						pb := x.Block().Preds[i]
+						lg.noPhiLen = true
+						saved := lg.extra
+						lg.extra = edgeFacts(pb, x.Block())
+						cs := lg.subFacts(lg.boundFacts(pb))
+						lg.extra = saved
+						lg.noPhiLen = false
+						if !entails(cs, "0", "len("+lg.key(e)+")", -1) {
+							all = false
+							break
+						}
+					}
+					if all {
+						out = append(out, diffC{"0", "len(" + lg.key(x) + ")", -1})
+					}
+					continue
+				}
 				// induction variable: phi(c0, phi + k) with k >= 0  =>  phi >= c0
 				if bt, ok := x.Type().Underlying().(*types.Basic); !ok || bt.Info()&types.IsInteger == 0 {
 					continue
@@ -3702,7 +3841,7 @@ func disjunctiveFacts(b *ssa.BasicBlock) [][]edgeFact {
 				alts = append(alts, append([]edgeFact{}, edgeFactsInto(phi.Block().Preds[i], phi.Block())...))
 				continue
 			}
-			fs := expandFact(edgeFact{e, truth}, 0)
+			fs := expandFact(edgeFact{e, truth}, 0, phi.Parent())
 			fs = append(fs, edgeFactsInto(phi.Block().Preds[i], phi.Block())...)
 			alts = append(alts, fs)
 		}
